@@ -58,7 +58,8 @@ Definition key_step_gen (patched : bool) (s : kst) (key : kkey) : Z * kst :=
         match text_object m (bdoc b) n hc with
         | TOErr => (1, mkks st None (ks_oparg s) (ks_op s) (ks_last s))   (* raised before the try/finally *)
         | TO o failed =>
-            if patched && cancelled o failed then (0, mkks st None None None (ks_last s))
+            if patched && cancelled o failed
+            then (0, mkks (with_buf st (fix_vi_cursor b)) None None None (ks_last s))   (* _fix_vi_cursor_position runs after every handler *)
             else
             let '(status, st1) := run_op k st o (mkev n keys) in
             let st2 := if (status =? 0) && negb (vins st1)
@@ -78,11 +79,14 @@ Definition key_step_gen (patched : bool) (s : kst) (key : kkey) : Z * kst :=
     end in
   match key with
   | KD d =>
+      (* the cursor fix-up runs after the digit handler too, but only in
+         navigation mode, i.e. not while an operator is pending *)
+      let st' := match ks_op s with None => with_buf st (fix_vi_cursor b) | Some _ => st end in
       match ks_arg s with
-      | Some a => (0, mkks st (Some (10 * a + d)) (ks_oparg s) (ks_op s) (ks_last s))
+      | Some a => (0, mkks st' (Some (10 * a + d)) (ks_oparg s) (ks_op s) (ks_last s))
       | None =>
           if d =? 0 then motion T_zero     (* no count yet: 0 is the start-of-line motion *)
-          else (0, mkks st (Some d) (ks_oparg s) (ks_op s) (ks_last s))
+          else (0, mkks st' (Some d) (ks_oparg s) (ks_op s) (ks_last s))
       end
   | KO k keys =>
       match ks_op s with
@@ -91,7 +95,7 @@ Definition key_step_gen (patched : bool) (s : kst) (key : kkey) : Z * kst :=
           (0, mkks st None (if is_some (ks_arg s) then Some (ev_arg (ks_arg s)) else None)
                    (Some (k, keys)) (ks_last s))
       end
-  | KE => (0, mkks st None None None (ks_last s))
+  | KE => (0, mkks (with_buf st (fix_vi_cursor b)) None None None (ks_last s))
   | KM m => motion m
   end.
 
